@@ -31,3 +31,88 @@ Definition check_match_row (events : list string) (row : list string * list (lis
   bad_idx (fun p => strs_eqb (matching (fst row) (fst p)) (snd p)) (combine events (snd row)).
 Definition check_match (events : list string) (rows : list (list string * list (list string))) : list (nat * nat) :=
   bad_idx2 (check_match_row events) rows.
+
+(* ------------------------------------------------------------------ *)
+(* canonical token rendering of interpreter state, shared with harness/impl.py *)
+From XSM Require Export Model.Macro.
+
+Definition mkT := Build_trans.
+Definition mkI := Build_invoke.
+Definition mkN := Build_node.
+Definition mkM := Build_machine.
+Definition mkE := Build_event.
+
+Inductive tok := TN (n : nat) | TS (s : string) | TZ (z : Z).
+Definition tok_eqb (a b : tok) : bool :=
+  match a, b with
+  | TN x, TN y => Nat.eqb x y
+  | TS x, TS y => String.eqb x y
+  | TZ x, TZ y => Z.eqb x y
+  | _, _ => false
+  end.
+Definition toks_eqb := list_eqb tok_eqb.
+
+Definition err_code (e : err) : nat :=
+  match e with EImplMissing => 0 | EStateNotFound => 1 | EInvalidConfig => 2 | ENotSupported => 3 end.
+Definition status_code (x : status) : nat :=
+  match x with Uninit => 0 | Running => 1 | Done => 2 | Errored => 3 | Stopped => 4 end.
+Definition flat_optz (o : option Z) : list tok := match o with None => [TS "none"] | Some z => [TZ z] end.
+Definition flat_cfg (l : list nat) : list tok := TS "[" :: map TN l ++ [TS "]"].
+
+Definition flat_obs (o : obs) : list tok :=
+  match o with
+  | OAct k ty tag => [TS "act"; TN k; TS ty; TN tag]
+  | OActErr k => [TS "acterr"; TN k]
+  | OSched s => [TS "sched"; TN s]
+  | OCancel s => [TS "cancel"; TN s]
+  | OTrans tid cfg => TS "trans" :: TN tid :: flat_cfg cfg
+  | ONotify cfg => TS "notify" :: flat_cfg cfg
+  | OBegin ty tag => [TS "begin"; TS ty; TN tag]
+  | ODone out => TS "done" :: flat_optz out
+  | OCut w => [TS "cut"; TN w]
+  | OErr e => [TS "err"; TN (err_code e)]
+  end.
+
+Fixpoint ins_hist (e : nat * list nat) (l : list (nat * list nat)) :=
+  match l with [] => [e] | y :: r => if Nat.ltb (fst y) (fst e) then y :: ins_hist e r else e :: l end.
+Definition sort_hist (l : list (nat * list nat)) := fold_right ins_hist [] l.
+
+Definition flat_st (s : st) : list tok :=
+  TS "cfg" :: map TN (sort_nat (s_cfg s))
+  ++ TS "hist" :: List.concat (map (fun e => TN (fst e) :: flat_cfg (snd e))
+                                   (sort_hist (filter (fun e => match snd e with [] => false | _ => true end) (s_hist s))))
+  ++ TS "ctx" :: map (fun v => TZ (ctx_get (s_ctx s) v)) [0; 1; 2; 3]
+  ++ TS "queue" :: List.concat (map (fun e => [TS (e_type e); TN (e_tag e)]) (s_queue s))
+  ++ [TS "status"; TN (status_code (s_status s))]
+  ++ TS "output" :: flat_optz (s_output s)
+  ++ TS "log" :: List.concat (map flat_obs (rev (s_log s))).
+
+(* K-macro-s: snapshots after start() and after each send() *)
+Fixpoint sync_snaps (m : machine) (s : st) (evs : list event) : list (list tok) :=
+  match evs with
+  | [] => []
+  | ev :: r => let s' := catch (sync_send m ev) s in flat_st s' :: sync_snaps m s' r
+  end.
+Definition sync_case (m : machine) (cx : ctx) (evs : list event) : list (list tok) :=
+  let s0 := catch (sync_start m) (st_init cx) in flat_st s0 :: sync_snaps m s0 evs.
+
+(* K-macro-a: snapshots at quiescence after start() and after each send() *)
+Definition async_fuel : nat := 400.
+Fixpoint async_snaps (m : machine) (s : st) (evs : list event) : list (list tok) :=
+  match evs with
+  | [] => []
+  | ev :: r => match async_loop async_fuel m (async_send ev s) with
+               | (s', false) => flat_st s' :: async_snaps m s' r
+               | (_, true) => [[TS "TIMEOUT"]]
+               end
+  end.
+Definition async_case (m : machine) (cx : ctx) (evs : list event) : list (list tok) :=
+  match async_loop async_fuel m (catch (async_start m) (st_init cx)) with
+  | (s0, false) => flat_st s0 :: async_snaps m s0 evs
+  | (_, true) => [[TS "TIMEOUT"]]
+  end.
+
+Definition snaps_eqb := list_eqb toks_eqb.
+(* a macro case: machine, engine, runs = (initial ctx, events, implementation snapshots) *)
+Definition check_macro (eng : engine) (m : machine) (runs : list (ctx * list event * list (list tok))) : list nat :=
+  bad_idx (fun r => snaps_eqb (match eng with Sync => sync_case | Async => async_case end m (fst (fst r)) (snd (fst r))) (snd r)) runs.
